@@ -7,7 +7,7 @@ mkdir -p /tmp/seedwt
 git -C /repo worktree remove --force $wt 2>/dev/null
 git -C /repo worktree add -q --detach $wt HEAD || exit 2
 git -C $wt apply /verif/seeded/$id/patch.diff || { echo "patch does not apply"; git -C /repo worktree remove --force $wt; exit 2; }
-cd /verif && VERIF_REPO=$wt ./check $prop --tier $tier
+cd /verif && VERIF_EVIDENCE_DIR=/tmp/seedwt/evidence VERIF_REPO=$wt ./check $prop --tier $tier
 rc=$?
 git -C /repo worktree remove --force $wt
 echo "SEEDED $id property=$prop tier=$tier exit=$rc"
